@@ -12,7 +12,7 @@ RULE = ("HashToCurve::{hash_to_curve, encode_to_curve} for G1 and G2 with XMD(SH
         "affine points, and the model subgroup predicate on a sample of results. RFC appendix J vectors are part of the "
         "model self-test. A case is (op, group, expander, message-length class, tag-length class, build)")
 ASSUMPTIONS = ["RFC 9380 pipeline as transcribed in model/rfc9380.py, anchored by appendix J/K known answers and the isogeny polynomial identity"]
-MIN_EVALS = {"quick": 800, "thorough": 30000}
+MIN_EVALS = {"quick": 800, "thorough": 20000}
 
 XS = ["sha256", "sha512", "shake128", "shake256"]
 MSG_LENS = [0, 1, 55, 56, 57, 63, 64, 65, 111, 112, 127, 128, 129, 135, 136, 137, 167, 168, 169]
@@ -24,7 +24,7 @@ def plan(tier, seed):
     q = tier == "quick"
     for g in (1, 2):
         for x in XS:
-            for i in range((1 if g == 1 else 2) if q else (12 if g == 1 else 40)):
+            for i in range((3 if g == 1 else 4) if q else (24 if g == 1 else 60)):
                 shards.append(dict(no=no, g=g, x=x, idx=i)); no += 1
     return shards
 
